@@ -1,4 +1,5 @@
 import IncanModel.Lemmas.Cargo
+import IncanModel.Tool.ModuleTree
 /-
 C12 — Compilation is deterministic (the part with a model: the Cargo.toml dependency section).
 
@@ -27,3 +28,147 @@ example : manifestDeps ⟨false, false, false⟩ [([117, 117, 105, 100], .versio
   manifest_order_independent _ _ _ (List.Perm.swap _ _ _) (by decide)
 
 end Incan.Cargo
+
+/-! ### The module tree of a multi-file project does not depend on the iteration order of the module map -/
+namespace Incan.ModuleTree
+open Incan.Cargo
+
+theorem dirChildren_perm (p1 p2 : List Path) (h : p1.Perm p2) : (dirChildren p1).Perm (dirChildren p2) := by
+  induction h with
+  | nil => exact List.Perm.refl _
+  | cons x _ ih => exact List.Perm.append_left _ ih
+  | swap x y l =>
+    simp only [dirChildren]
+    rw [← List.append_assoc, ← List.append_assoc]
+    exact List.Perm.append_right _ List.perm_append_comm
+  | trans _ _ ih1 ih2 => exact ih1.trans ih2
+
+theorem mem_dedup (l : List Name) (a : Name) : a ∈ dedup l ↔ a ∈ l := by
+  induction l with
+  | nil => simp [dedup]
+  | cons x xs ih =>
+    unfold dedup
+    by_cases hc : (dedup xs).contains x = true
+    · rw [if_pos hc]
+      have hx : x ∈ dedup xs := List.contains_iff_mem.1 hc
+      constructor
+      · intro h; exact List.mem_cons_of_mem _ (ih.1 h)
+      · intro h
+        rcases List.mem_cons.1 h with rfl | h'
+        · exact hx
+        · exact ih.2 h'
+    · rw [if_neg hc]
+      constructor
+      · intro h
+        rcases List.mem_cons.1 h with rfl | h'
+        · exact List.mem_cons_self
+        · exact List.mem_cons_of_mem _ (ih.1 h')
+      · intro h
+        rcases List.mem_cons.1 h with rfl | h'
+        · exact List.mem_cons_self
+        · exact List.mem_cons_of_mem _ (ih.2 h')
+
+theorem nodup_dedup (l : List Name) : (dedup l).Nodup := by
+  induction l with
+  | nil => simp [dedup]
+  | cons x xs ih =>
+    unfold dedup
+    by_cases hc : (dedup xs).contains x = true
+    · rw [if_pos hc]; exact ih
+    · rw [if_neg hc]
+      exact List.nodup_cons.2 ⟨fun h => hc (List.contains_iff_mem.2 h), ih⟩
+
+theorem sorted_dedup_eq (l1 l2 : List Name) (h : ∀ a, a ∈ l1 ↔ a ∈ l2) :
+    (dedup l1).mergeSort lexLe = (dedup l2).mergeSort lexLe := by
+  have hs1 := List.pairwise_mergeSort (le := lexLe) lexLe_trans lexLe_total (dedup l1)
+  have hs2 := List.pairwise_mergeSort (le := lexLe) lexLe_trans lexLe_total (dedup l2)
+  have hn1 : ((dedup l1).mergeSort lexLe).Nodup := (List.mergeSort_perm _ _).nodup_iff.2 (nodup_dedup _)
+  have hn2 : ((dedup l2).mergeSort lexLe).Nodup := (List.mergeSort_perm _ _).nodup_iff.2 (nodup_dedup _)
+  have hperm : ((dedup l1).mergeSort lexLe).Perm ((dedup l2).mergeSort lexLe) := by
+    apply (List.perm_ext_iff_of_nodup hn1 hn2).2
+    intro a
+    rw [(List.mergeSort_perm _ _).mem_iff, (List.mergeSort_perm _ _).mem_iff, mem_dedup, mem_dedup]
+    exact h a
+  apply List.Perm.eq_of_pairwise (le := fun a b => lexLe a b = true) _ hs1 hs2 hperm
+  intro a b _ _ hab hba
+  exact lexLe_antisymm a b hab hba
+
+/-- MAIN (module lists): the `pub mod` lines written for a directory are the same whatever order the module map is
+iterated in. -/
+theorem children_order_independent (p1 p2 : List Path) (h : p1.Perm p2) (dir : Path) :
+    childrenOf p1 dir = childrenOf p2 dir := by
+  unfold childrenOf
+  apply sorted_dedup_eq
+  intro a
+  have hp := ((dirChildren_perm p1 p2 h).filter (fun e => e.1 == dir)).map (·.2)
+  exact hp.mem_iff
+
+/-- … and each child is declared once (a repeated `pub mod x;` does not compile). -/
+theorem children_nodup (paths : List Path) (dir : Path) : (childrenOf paths dir).Nodup := by
+  unfold childrenOf
+  exact (List.mergeSort_perm _ _).nodup_iff.2 (nodup_dedup _)
+
+/-- Where the lines go does not depend on the order either. -/
+theorem carrier_order_independent (p1 p2 : List Path) (h : p1.Perm p2) (dir : Path) :
+    carrier p1 dir = carrier p2 dir := by
+  unfold carrier
+  have : p1.contains dir = p2.contains dir := by
+    cases h1 : p1.contains dir <;> cases h2 : p2.contains dir <;> simp_all
+    · exact absurd (h.mem_iff.2 h2) h1
+    · exact absurd (h.mem_iff.1 h1) h2
+  rw [this]
+
+/-- rustc accepts at most one of `<dir>.rs` and `<dir>/mod.rs` (E0761 otherwise): never both are written. -/
+theorem never_file_and_modrs (paths : List Path) (dir : Path) : (writes paths dir) ≠ (true, true) := by
+  unfold writes carrier
+  intro h
+  have h1 : paths.contains dir = true := congrArg Prod.fst h
+  have h2 := congrArg Prod.snd h
+  simp only [h1] at h2
+  by_cases hd : dir = []
+  · rw [if_pos hd] at h2; exact absurd h2 (by decide)
+  · rw [if_neg hd] at h2; exact absurd h2 (by decide)
+
+theorem mem_dirChildren (paths : List Path) (dir : Path) (c : Name) :
+    (dir, c) ∈ dirChildren paths ↔ ∃ p ∈ paths, ∃ i, i < p.length ∧ p.take i = dir ∧ p[i]? = some c := by
+  induction paths with
+  | nil => simp [dirChildren]
+  | cons q rest ih =>
+    simp only [dirChildren, List.mem_append, List.mem_filterMap, List.mem_range, Option.map_eq_some_iff,
+      Prod.mk.injEq, ih, List.mem_cons, exists_eq_or_imp]
+    constructor
+    · rintro (⟨i, hi, seg, hseg, hd, hc⟩ | h)
+      · exact Or.inl ⟨i, hi, hd, by rw [hseg, hc]⟩
+      · exact Or.inr h
+    · rintro (⟨i, hi, hd, hc⟩ | h)
+      · exact Or.inl ⟨i, hi, c, hc, hd, rfl⟩
+      · exact Or.inr h
+
+/-- The `pub mod` lines of a directory are exactly the next segments of the module paths that pass through it: every
+module file is declared by its parent (no file is left out of the crate), and nothing is declared that has no file
+or directory behind it (a `pub mod x;` without `x.rs` / `x/` is E0583). -/
+theorem children_exact (paths : List Path) (dir : Path) (c : Name) :
+    c ∈ childrenOf paths dir ↔ ∃ p ∈ paths, ∃ i, i < p.length ∧ p.take i = dir ∧ p[i]? = some c := by
+  unfold childrenOf
+  rw [(List.mergeSort_perm _ _).mem_iff, mem_dedup, ← mem_dirChildren]
+  simp only [List.mem_map, List.mem_filter, beq_iff_eq, Prod.exists]
+  constructor
+  · rintro ⟨d, c', ⟨hmem, hd⟩, hc⟩
+    subst hd; subst hc; exact hmem
+  · intro h
+    exact ⟨dir, c, ⟨h, rfl⟩, rfl⟩
+
+/-- In particular every module is declared all the way down from the crate root. -/
+theorem every_module_reachable (paths : List Path) (p : Path) (hp : p ∈ paths) (i : Nat) (hi : i < p.length) :
+    p[i] ∈ childrenOf paths (p.take i) :=
+  (children_exact paths (p.take i) p[i]).2 ⟨p, hp, i, hi, rfl, by simp [hi]⟩
+
+example : ([99] : Name) ∈ childrenOf [[[97]], [[97], [98]], [[97], [99], [100]]] [[97]] :=
+  every_module_reachable _ [[97], [99], [100]] (by decide) 1 (by decide)
+
+/-- The generator as it was wrote both for a module that is also a directory (`a.incn` next to `a/b.incn`). -/
+theorem old_generator_wrote_both :
+    writesOld [[[97]], [[97], [98]]] [[97]] = (true, true) ∧ writes [[[97]], [[97], [98]]] [[97]] = (true, false) := by
+  decide
+
+end Incan.ModuleTree
